@@ -23,7 +23,7 @@ RULE = (
 )
 ASSUMPTIONS = ["reference pp-tokenizer and classifiers of vlib/reflex.py (C99 6.4 + the documented extensions)"]
 
-IDENTS = ["a", "x1", "_y", "foo$bar", "L", "u", "U", "u8", "e", "p", "x", "E1", "l", "f", "ul", "b", "LL", "$", "int_", "Int", "_bool", "line", "pragma"]
+IDENTS = ["a", "x1", "_y", "foo$bar", "L", "u", "U", "u8", "e", "p", "x", "E1", "l", "f", "ul", "b", "LL", "$", "int_", "Int", "_bool", "line", "pragma", "alignas", "alignof", "static_assert", "thread_local", "bool", "noreturn", "complex", "atomic", "typeof", "asm", "_BOOL", "INT", "defined"]
 TYPEIDS = ["T", "T2", "size_t"]
 # the callback also claims keywords are types: the lexer must not ask (or must ignore the answer)
 LOOKUP_YES = set(TYPEIDS) | {"int", "_Bool", "typedef", "sizeof", "_Atomic", "offsetof"}
